@@ -11,6 +11,7 @@ byte family transcripts), not by a theorem.
 import TypedPathVerif.Lemmas.Utf8
 import TypedPathVerif.Props.C13
 import TypedPathVerif.Props.C08
+import TypedPathVerif.Props.C04
 import TypedPathVerif.Generated.Api
 
 namespace TP.C14
